@@ -265,15 +265,20 @@ func TestC16(t *testing.T) {
 	upper := strings.ToUpper
 	moduleNames := []string{"erc20", "eth", "bsc", "tron", "distribution", "evm", "bonded_tokens_pool", "mint", "fee_collector", "crosschain", "gov", "polygon", "avalanche", "arbitrum", "optimism", "layer2", "migrate", "transfer", "feemarket"}
 	govBz := authtypes.NewModuleAddress(govtypes.ModuleName)
+	modCursor := 0
 	candidates := func(rng *rand.Rand, m sdk.Msg) []cand {
-		otherName := hx.Pick(rng, moduleNames)
-		for otherName == "gov" {
-			otherName = hx.Pick(rng, moduleNames)
+		// module accounts are cycled through (not drawn), so that every message type meets every module account
+		nextModule := func() string {
+			modCursor++
+			if moduleNames[modCursor%len(moduleNames)] == "gov" {
+				modCursor++
+			}
+			return authtypes.NewModuleAddress(moduleNames[modCursor%len(moduleNames)]).String()
 		}
-		other := authtypes.NewModuleAddress(otherName).String()
+		other, other2 := nextModule(), nextModule()
 		acc := helpers.GenAccAddress().String()
 		cs := []cand{
-			{"gov", gov}, {"GOV-upper", upper(gov)}, {"module", other}, {"module-upper", upper(other)},
+			{"gov", gov}, {"GOV-upper", upper(gov)}, {"module", other}, {"module-upper", upper(other2)},
 			{"account", acc}, {"account-upper", upper(acc)},
 		}
 		// every name and every address in the payload: the module account of that name / that address itself
@@ -318,8 +323,9 @@ func TestC16(t *testing.T) {
 
 	// one routed call on a fresh branch: observation stage, error, stores changed
 	baseDump := map[string]string{}
+	base := s.Ctx
 	route := func(m sdk.Msg) (err error, panicked string, changed []string) {
-		cctx, _ := s.Ctx.CacheContext()
+		cctx, _ := base.CacheContext()
 		res := hx.Try(func() error {
 			_, err = app.MsgServiceRouter().Handler(m)(cctx, m)
 			return nil
@@ -361,10 +367,42 @@ func TestC16(t *testing.T) {
 	for it := 0; it < n; it++ {
 		out.Reset()
 		envLines()
-		baseDump = hx.DumpAll(s.Ctx, keys)
+		// the state the sweep starts from: the committed state, or (odd iterations) a branch on which one round of
+		// governance-authorised privileged messages has already taken effect (a multi-step history)
+		base = s.Ctx
+		if it%2 == 1 {
+			bctx, _ := s.Ctx.CacheContext()
+			applied := 0
+			for _, m := range valid(rng) {
+				setAuthority(m, gov)
+				var err error
+				if res := hx.Try(func() error { _, err = app.MsgServiceRouter().Handler(m)(bctx, m); return nil }); res == "ok" && err == nil {
+					applied++
+				}
+			}
+			out.Count(fmt.Sprintf("history:gov-messages-applied:%d", applied))
+			base = bctx
+		}
+		baseDump = hx.DumpAll(base, keys)
 		// ---------------- correspondence stream
 		var msgs []sdk.Msg
 		msgs = append(msgs, valid(rng)...)
+		// the governance address in a payload field (a guard reading the wrong field would accept it there)
+		for _, m := range valid(rng) {
+			v := reflect.ValueOf(m).Elem()
+			for i := 0; i < v.NumField(); i++ {
+				if v.Field(i).Kind() == reflect.String && v.Type().Field(i).Name != "Authority" {
+					bz, err := proto.Marshal(m)
+					c, ok := reflect.New(v.Type()).Interface().(sdk.Msg)
+					if err != nil || !ok || proto.Unmarshal(bz, c) != nil {
+						continue
+					}
+					reflect.ValueOf(c).Elem().Field(i).SetString(gov)
+					msgs = append(msgs, c)
+					out.Count("payload-field-is-gov:" + msgKey(m) + "." + v.Type().Field(i).Name)
+				}
+			}
+		}
 		if it%3 == 0 {
 			msgs = append(msgs, zeros()...)
 		}
